@@ -931,10 +931,9 @@ inline void anam_probe(AAnam& a, Fp& fp, bool cont)
 inline void register_anam()
 {
   Reg<AnamHermite>("AnamHermite")
-    .space([](bool th) { Space s; s.axis("mode", 3).axis("nbpoly", 5).axis("data", 2).axis("flagBound", 2).axis("rcoef", 2); return s; })
+    .space([](bool th) { Space s; s.axis("mode", 3).axis("nbpoly", 4).axis("data", 2).axis("flagBound", 2).axis("rcoef", 2); return s; })
     .build([](const std::vector<int>& x) -> AnamHermite* {
-      int nb = std::vector<int>{3, 8, 1, 20, 0}[x[1]];
-      if (nb == 0 && x[0] != 0) return nullptr;   // no polynomial: hand-set mode only (count 0)
+      int nb = std::vector<int>{3, 8, 1, 20}[x[1]];   // (0 polynomials: the API object itself crashes in reset(), not usable)
       AnamHermite* a = AnamHermite::create(nb, x[3] == 0, 1.);
       if (x[0] == 0)
       {
@@ -962,10 +961,9 @@ inline void register_anam()
     .done();
 
   Reg<AnamEmpirical>("AnamEmpirical")
-    .space([](bool) { Space s; s.axis("ndisc", 4).axis("data", 2).axis("sigma2e", 3).axis("mode", 2); return s; })
+    .space([](bool) { Space s; s.axis("ndisc", 3).axis("data", 2).axis("sigma2e", 3).axis("mode", 2); return s; })
     .build([](const std::vector<int>& x) -> AnamEmpirical* {
-      int nd = std::vector<int>{5, 12, 2, 0}[x[0]];
-      if (nd == 0 && x[3] == 0) return nullptr;   // count 0: hand-set mode only
+      int nd = std::vector<int>{5, 12, 2}[x[0]];   // (0 classes: the API object crashes when evaluated, not usable)
       double s2 = std::vector<double>{TEST, 0.25, 0.}[x[2]];
       AnamEmpirical* a = AnamEmpirical::create(nd, s2);
       if (x[3] == 0)
@@ -995,7 +993,7 @@ inline void register_anam()
       // built through the setters (the fitting routine of this class crashes on its own, which is not a serialisation matter)
       AnamDiscreteDD* a = AnamDiscreteDD::create(x[2] ? 1.5 : 1., x[3] ? 0.25 : 0.);
       VectorDouble zc = std::vector<VectorDouble>{{1.}, {0.75, 2.}, {0.5, 1.25, 3.}}[x[0]];
-      int nc = (int)zc.size(), ncl = nc + 1, ne = x[1] ? 4 : 3;
+      int nc = (int)zc.size(), ncl = nc + 1, ne = x[1] ? 3 : 4;
       a->setNCut(nc); a->setNElem(ne); a->setZCut(zc);
       VectorDouble st; for (int i = 0; i < ncl * ne; i++) st.push_back(x[1] ? 1. / (3. + i) : 0.25 * i);
       a->setStats(st);
